@@ -27,13 +27,12 @@ Proof.
 Qed.
 
 Lemma vtt_loop_internal items : forall v k,
-  vtt_inv v -> vtt_any_overflow items = false ->
-  vtt_loop v items = inr (Internal k) -> In (SubInternal k) (v_oracle v).
+  vtt_inv v -> vtt_loop v items = inr (Internal k) -> In (SubInternal k) (v_oracle v).
 Proof.
-  induction items as [|l rest IH]; intros v k I O H.
+  induction items as [|l rest IH]; intros v k I H.
   - simpl in H. unfold vtt_step in H. unfold vtt_inv in I.
     destruct (v_state v) eqn:St; try discriminate; destruct I as [Ip Ib]; apply vtt_flush_internal; eauto.
-  - simpl in H. unfold vtt_any_overflow in O. simpl in O. apply orb_false_iff in O as [O1 O2].
+  - simpl in H.
     destruct (vtt_step v (Some l)) as [v'|o] eqn:E.
     + assert (G : vtt_inv v' /\ (forall x, In x (v_oracle v') -> In x (v_oracle v))).
       { unfold vtt_step in E. unfold vtt_inv in *.
@@ -45,7 +44,7 @@ Proof.
           destruct (vv_style l); [inversion E; subst; simpl; auto|].
           destruct (vv_arrow l); simpl in E; [|inversion E; subst; rewrite St; auto].
           destruct (vv_cue l); simpl in E; [|inversion E; subst; rewrite St; auto].
-          rewrite O1 in E. inversion E; subst; simpl; auto.
+          inversion E; subst; simpl; auto.
         - destruct (vv_blank l); inversion E; subst; simpl; rewrite ?St; auto.
         - destruct (vv_blank l); inversion E; subst; simpl; rewrite ?St; auto.
         - destruct I as [Ip Ib]. destruct (vv_blank l).
@@ -60,67 +59,180 @@ Proof.
       * discriminate.
       * unfold vtt_looking in E.
         destruct (vv_blank l); [discriminate|]. destruct (vv_note l); [discriminate|]. destruct (vv_style l); [discriminate|].
-        destruct (vv_arrow l); simpl in E; [|discriminate]. destruct (vv_cue l); simpl in E; [|discriminate].
-        rewrite O1 in E. discriminate.
+        destruct (vv_arrow l); simpl in E; [|discriminate]. destruct (vv_cue l); simpl in E; discriminate.
       * destruct (vv_blank l); discriminate.
       * destruct (vv_blank l); discriminate.
       * destruct I as [Ip Ib]. destruct (vv_blank l); [apply vtt_flush_internal; eauto|]. unfold vtt_text_line in E. rewrite Ip in E. discriminate.
       * destruct I as [Ip Ib]. destruct (vv_blank l); [apply vtt_flush_internal; eauto|]. unfold vtt_text_line in E. rewrite Ib in E. discriminate.
 Qed.
 
-(* every file, the empty one included, whose cue settings do not overflow a float *)
-Lemma vtt_views_partial oracle items k :
-  vtt_any_overflow items = false -> vtt_views oracle items = Internal k -> In (SubInternal k) oracle.
+(* every sequence of classified lines — in particular every file, the empty one included, with any cue settings *)
+Lemma vtt_views_internal oracle items k :
+  vtt_views oracle items = Internal k -> In (SubInternal k) oracle.
 Proof.
-  intros O. unfold vtt_views.
+  unfold vtt_views.
   destruct (vtt_loop (vtt_init oracle) items) eqn:E; [discriminate|].
   intro; subst. change oracle with (v_oracle (vtt_init oracle)).
   eapply vtt_loop_internal; eauto. exact I.
 Qed.
 
-Lemma vtt_partial oracle content :
-  vtt_any_overflow (map vtt_classify (readlines content)) = false ->
+Lemma vtt_run_internal oracle content k :
+  vtt_run oracle content = Internal k -> In (SubInternal k) oracle.
+Proof. apply vtt_views_internal. Qed.
+
+Lemma vtt_total oracle content :
   (forall r, In r oracle -> sub_is_internal r = false) ->
   is_internal (vtt_run oracle content) = false.
 Proof.
-  intros O H. destruct (vtt_run oracle content) eqn:E; try reflexivity.
-  unfold vtt_run in E. apply vtt_views_partial in E; auto. apply H in E. discriminate.
+  intros H. destruct (vtt_run oracle content) eqn:E; try reflexivity.
+  apply vtt_run_internal in E. apply H in E. discriminate.
 Qed.
 
 (* ---------------------------------------------------------------------------------------------- the cursor, without ruby *)
-Fixpoint spans (n : nat) (tail : list vkind) : list vkind := match n with O => tail | S k => KSpan :: spans k tail end.
+(* a path whose innermost element accepts spans and line breaks: a span or the paragraph *)
+Definition inline (p : list vkind) : Prop := exists r, p = KSpan :: r \/ p = KP :: r.
 
-Lemma data_lines_inline path n : forall i,
-  (exists r, path = KSpan :: r \/ path = KP :: r) -> data_lines path i n = None.
+Lemma data_lines_inline path n : forall i, inline path -> data_lines path false i n = None.
 Proof.
   induction n as [|n IH]; intros i [r [E|E]]; subst; simpl; auto.
-  - destruct (Nat.eqb i 0); apply IH; eauto.
-  - destruct (Nat.eqb i 0); apply IH; eauto.
+  - destruct (Nat.eqb i 0); apply IH; unfold inline; eauto.
+  - destruct (Nat.eqb i 0); apply IH; unfold inline; eauto.
 Qed.
 
-Lemma vtt_cursor_no_ruby es : forall open tail,
-  vtt_stray_from open es = false -> vtt_has_ruby es = false ->
-  is_internal (vtt_cursor_loop {| c_path := spans open (KP :: tail); c_ruby := None |} es) = false.
+(* without a <ruby> tag: no ruby is open, the cursor and every element an end tag can return to is a span or the paragraph *)
+Definition vcur_inv (c : vcur) : Prop :=
+  c_ruby c = None /\ inline (c_path c) /\ Forall (fun p => inline (snd p)) (c_open c).
+
+Lemma inline_push p : inline p -> push_result p ChSpan = None.
+Proof. intros [r [E|E]]; subst; reflexivity. Qed.
+Lemma inline_not_rt p : inline p -> is_rt_path p = false.
+Proof. intros [r [E|E]]; subst; reflexivity. Qed.
+Lemma inline_not_ruby p : inline p -> is_ruby_path p = false.
+Proof. intros [r [E|E]]; subst; reflexivity. Qed.
+
+Lemma vtt_cursor_step_inv c e :
+  vcur_inv c -> (match e with TStartRuby _ => False | _ => True end) ->
+  match vtt_cursor_step c e with
+  | inl c' => vcur_inv c'
+  | inr o => is_internal o = false
+  end.
 Proof.
-  induction es as [|e rest IH]; intros open tail Hs Hr; [reflexivity|].
-  unfold vtt_has_ruby in Hr. simpl in Hr.
-  assert (Inl : exists r, spans open (KP :: tail) = KSpan :: r \/ spans open (KP :: tail) = KP :: r) by (destruct open; simpl; eauto).
-  destruct e; simpl in Hr; try discriminate; simpl in Hs; simpl.
-  - (* <rt> without ruby: a span *)
-    assert (P : push_result (spans open (KP :: tail)) ChSpan = None) by (destruct open; reflexivity).
-    rewrite P. apply (IH (S open) tail); assumption.
-  - (* span *)
-    assert (P : push_result (spans open (KP :: tail)) ChSpan = None) by (destruct open; reflexivity).
-    rewrite P. apply (IH (S open) tail); assumption.
-  - (* timestamp *)
-    apply (IH open tail); assumption.
-  - (* end tag *)
-    destruct open as [|d]; [discriminate|]. simpl. apply (IH d tail); assumption.
-  - (* data *)
-    assert (D : forall n, data_lines (spans open (KP :: tail)) 0 n = None) by (intro n; apply data_lines_inline; assumption).
-    specialize (D (S breaks)). simpl in D. rewrite D. apply (IH open tail); assumption.
+  intros [R [P O]] He. destruct c as [path ruby open]; simpl in R, P, O; subst ruby.
+  assert (Span : forall tag, vcur_inv {| c_path := KSpan :: path; c_ruby := None; c_open := (tag, path) :: open |}).
+  { intro tag. repeat split; simpl; [unfold inline; eauto|constructor; [exact P|exact O]]. }
+  destruct e as [tag|tag|tag| |tag|breaks]; try contradiction; unfold vtt_cursor_step; cbn [c_path c_ruby c_open].
+  - rewrite (inline_push _ P). apply Span.
+  - rewrite (inline_push _ P). apply Span.
+  - repeat split; assumption.
+  - destruct open as [|[top saved] rest]; [repeat split; assumption|].
+    inversion O as [|x l Hs Hr]; subst. simpl in Hs.
+    assert (Close : vcur_inv (vtt_close {| c_path := path; c_ruby := None; c_open := (top, saved) :: rest |})).
+    { unfold vtt_close; cbn [c_path c_ruby c_open]. rewrite (inline_not_ruby _ P). repeat split; assumption. }
+    destruct (top =? tag); [exact Close|].
+    destruct rest as [|[second saved2] rest2]; [repeat split; assumption|].
+    rewrite (inline_not_rt _ P), andb_false_r. cbn [andb]. repeat split; assumption.
+  - pose proof (data_lines_inline path (S breaks) 0 P) as D. rewrite D. repeat split; assumption.
 Qed.
 
+Lemma vtt_cursor_no_ruby es : forall c,
+  vcur_inv c -> vtt_has_ruby es = false -> is_internal (vtt_cursor_loop c es) = false.
+Proof.
+  induction es as [|e rest IH]; intros c I Hr; [reflexivity|].
+  unfold vtt_has_ruby in Hr. simpl in Hr. apply orb_false_iff in Hr as [He Hrest].
+  simpl. pose proof (vtt_cursor_step_inv c e I) as S.
+  assert (Ok : match e with TStartRuby _ => False | _ => True end) by (destruct e; try exact I0; try discriminate; exact Logic.I).
+  specialize (S Ok). destruct (vtt_cursor_step c e) as [c'|o]; [apply IH; assumption|exact S].
+Qed.
+
+(* every token sequence without a <ruby> start tag: unmatched, mismatched and surplus end tags, <rt> anywhere, timestamp tags *)
 Lemma vtt_cursor_partial attached es :
-  vtt_stray_end es = false -> vtt_has_ruby es = false -> is_internal (vtt_cursor_run attached es) = false.
-Proof. intros. apply (vtt_cursor_no_ruby es O); assumption. Qed.
+  vtt_has_ruby es = false -> is_internal (vtt_cursor_run attached es) = false.
+Proof.
+  intros. apply vtt_cursor_no_ruby; [|assumption].
+  repeat split; simpl; [unfold inline; eauto|constructor].
+Qed.
+
+(* with ruby: whatever the tokens, the cursor never leaves the paragraph — an end tag returns to an element that was the cursor
+   before (the property whose failure was finding vtt-stray-end-tag) *)
+Definition below_p (tail p : list vkind) : Prop := exists pre, p = pre ++ KP :: tail.
+Definition vcur_below (tail : list vkind) (c : vcur) : Prop :=
+  below_p tail (c_path c) /\ Forall (fun p => below_p tail (snd p)) (c_open c)
+  /\ match c_ruby c with Some rp => below_p tail rp | None => True end.
+
+Lemma below_cons tail k p : below_p tail p -> below_p tail (k :: p).
+Proof. intros [pre E]; subst. exists (k :: pre). reflexivity. Qed.
+
+Lemma vtt_close_below tail c : vcur_below tail c -> vcur_below tail (vtt_close c).
+Proof.
+  intros [P [O R]]. unfold vtt_close. destruct (c_open c) as [|[t saved] rest] eqn:E; [repeat split; auto; rewrite E; auto|].
+  inversion O; subst. repeat split; cbn [c_path c_open c_ruby]; auto.
+  destruct (is_ruby_path (c_path c)); [exact I|exact R].
+Qed.
+
+Lemma vtt_cursor_step_below tail c e c' :
+  vcur_below tail c -> vtt_cursor_step c e = inl c' -> vcur_below tail c'.
+Proof.
+  intros B H. pose proof B as [P [O R]].
+  assert (Opened : forall tag, Forall (fun p => below_p tail (snd p)) ((tag, c_path c) :: c_open c)) by (intro; constructor; assumption).
+  destruct e as [tag|tag|tag| |tag|breaks]; unfold vtt_cursor_step in H.
+  - destruct (c_ruby c); [discriminate|]. destruct (c_path c) as [|k p] eqn:Ep; [discriminate|].
+    destruct (push_result (k :: p) ChRuby); [discriminate|]. inversion H; subst.
+    split; [|split]; cbn [c_path c_open c_ruby]; try (apply below_cons; assumption). apply Opened.
+  - destruct (c_ruby c) as [rp|] eqn:Er.
+    + destruct (c_path c) eqn:Ep; [discriminate|]. inversion H; subst.
+      split; [|split]; cbn [c_path c_open c_ruby]; [apply below_cons; exact R|apply Opened|exact R].
+    + destruct (push_result (c_path c) ChSpan); [discriminate|]. inversion H; subst.
+      split; [|split]; cbn [c_path c_open c_ruby]; [apply below_cons; assumption|apply Opened|exact I].
+  - destruct (push_result (c_path c) ChSpan); [discriminate|]. inversion H; subst.
+    split; [|split]; cbn [c_path c_open c_ruby]; [apply below_cons; assumption|apply Opened|exact R].
+  - inversion H; subst. exact B.
+  - destruct (c_open c) as [|[top saved] rest] eqn:Eo; [inversion H; subst; exact B|].
+    destruct (top =? tag); [inversion H; subst; apply vtt_close_below; exact B|].
+    destruct rest as [|[second s2] rest2]; [inversion H; subst; exact B|].
+    destruct ((second =? tag) && is_rt_path (c_path c) && is_ruby_path saved); inversion H; subst;
+      [apply vtt_close_below; apply vtt_close_below; exact B|exact B].
+  - destruct (data_lines _ _ _ _); [discriminate|]. inversion H; subst. exact B.
+Qed.
+
+Fixpoint vtt_cursor_state (c : vcur) (es : list vtt_event) : option vcur :=
+  match es with
+  | [] => Some c
+  | e :: rest => match vtt_cursor_step c e with inr _ => None | inl c' => vtt_cursor_state c' rest end
+  end.
+
+Lemma vtt_cursor_below tail es : forall c c',
+  vcur_below tail c -> vtt_cursor_state c es = Some c' -> vcur_below tail c'.
+Proof.
+  induction es as [|e rest IH]; intros c c' B H; simpl in H; [inversion H; subst; exact B|].
+  destruct (vtt_cursor_step c e) as [c1|o] eqn:E; [|discriminate].
+  eapply IH; [eapply vtt_cursor_step_below; eauto|exact H].
+Qed.
+
+(* from the paragraph handed to the parser: after any tokens (ruby included) that do not end the parse the cursor is the
+   paragraph or below it — in particular it is not None, the div or the body *)
+Lemma vtt_cursor_never_above_p (attached : bool) es c' :
+  let tail : list vkind := if attached then [KDiv; KBody] else [] in
+  vtt_cursor_state {| c_path := KP :: tail; c_ruby := None; c_open := [] |} es = Some c' ->
+  exists pre, c_path c' = pre ++ KP :: tail.
+Proof.
+  intros tail H.
+  assert (B : vcur_below tail {| c_path := KP :: tail; c_ruby := None; c_open := [] |}).
+  { split; [exists []; reflexivity|split; [constructor|exact I]]. }
+  destruct (vtt_cursor_below tail es _ _ B H) as [P _]. exact P.
+Qed.
+
+(* ---------------------------------------------------------------------------------------------- line machine + cursor *)
+Definition vtt_cue_oracle (cues : list (bool * list vtt_event)) : list sub_result :=
+  map (fun c => sub_of_outcome (vtt_cursor_run (fst c) (snd c))) cues.
+
+Lemma vtt_cue_oracle_clean cues r :
+  (forall c, In c cues -> vtt_has_ruby (snd c) = false) -> In r (vtt_cue_oracle cues) -> sub_is_internal r = false.
+Proof.
+  unfold vtt_cue_oracle. intros Hc H. apply in_map_iff in H as [[a es] [E Hin]]. subst. simpl.
+  pose proof (vtt_cursor_partial a es (Hc _ Hin)) as T. destruct (vtt_cursor_run a es); simpl in *; try reflexivity. discriminate.
+Qed.
+
+Lemma vtt_composed_partial cues content :
+  (forall c, In c cues -> vtt_has_ruby (snd c) = false) ->
+  is_internal (vtt_run (vtt_cue_oracle cues) content) = false.
+Proof. intro Hc. apply vtt_total. intros r Hr. eapply vtt_cue_oracle_clean; eauto. Qed.
